@@ -42,7 +42,9 @@ def main() -> int:
     if in_place:
         # run the demonstration where it was written: the sub-agent's worktree, with its change stashed and then restored
         env_src = dict(os.environ, PYTHONPATH=str(src / "src"))
-        if "--reverse-apply" in sys.argv:
+        if "--stash" not in sys.argv:
+            # default: reverse-apply the patch (git stash is shared by all worktrees of one repository: concurrent sub-agents that stash/pop
+            # can swap each other's changes)
             # for patches that add files (git stash would leave them behind)
             sh(["git", "-C", str(src), "apply", "-R", str(src / "patch.diff")])
             try:
